@@ -6,7 +6,7 @@ from props.c04 import target_reg, tally  # noqa: F401
 
 ID = 'C05'
 DOMAIN = 'gin/eval'
-PROPS_FILES = ['Gin/Props/C05.lean']
+PROPS_FILES = ['Gin/Props/C05.lean', 'Gin/Props/C05b.lean']
 ANCHOR_FILES = ['config.py', 'config_parser.py', 'selector_map.py']
 RULE = ('1-2 consumer probes, 1-2 target probes; macros (plain and scope-like names) defined and redefined before and '
         'after their uses across several parse_config calls (some with skip_unknown on) and programmatic binds, some bound to evaluated references; '
